@@ -2,6 +2,11 @@
 //! Each keeps its own state; none calls the predicate under test.
 
 pub mod c01;
+pub mod c02;
+pub mod c04;
+pub mod c05;
+pub mod c10;
+pub mod setmodel;
 
 use std::collections::HashMap;
 
@@ -74,6 +79,7 @@ pub struct Truth {
     /// Links that were torn down (socket replaced, connected fell, removed) in the last step.
     pub torn_down_now: Vec<u64>,
     pub removed_now: Vec<u64>,
+    pub reg_err_now: Vec<u64>,
 }
 
 impl Truth {
@@ -98,6 +104,13 @@ impl Truth {
                 }
             }
         }
+        // A delivered REG_ERR makes `connected` fall without resetting the link.
+        self.reg_err_now = ctx
+            .uplink
+            .iter()
+            .filter(|(_, b)| ptype(b) == Some(T_REG_ERR))
+            .map(|(c, _)| *c)
+            .collect();
         // Tear-downs in the arm's main action.
         self.note_teardowns(ctx.pre, ctx.mid, ctx.idx);
         // Deliveries, in order.
@@ -140,7 +153,7 @@ impl Truth {
                 continue;
             };
             let socket_replaced = va.fd != vb.fd;
-            let fell = va.connected && !vb.connected;
+            let fell = va.connected && !vb.connected && !self.reg_err_now.contains(&va.conn_id);
             let reattempt = va.last_attempt_ms != vb.last_attempt_ms;
             if socket_replaced || fell || reattempt {
                 let e = self.links.entry(va.conn_id).or_default();
